@@ -61,6 +61,8 @@ def judge(res, r, sig0, what, detail):
     if r.rc not in (0, 1) and r.signal is None:
         add_violation(res, dict(sig0, kind="odd-exit", rc=r.rc), f"{what}: exit status {r.rc} without an mlr diagnostic", dict(detail, stderr=r.err[:1000]))
         return False
+    if r.rc == 1 and b"mlr" not in r.stderr and "--errors-json" in (detail.get("argv") or []) and re.search(rb'^\s*\{\s*"error"\s*:', r.stderr):
+        return True     # --errors-json: the diagnostic is a JSON object {"error": ..., "kind": ...} on stderr, by documented design
     if r.rc == 1 and b"mlr" not in r.stderr:
         add_violation(res, dict(sig0, kind="no-diagnostic", msg=re.sub(r"\d+", "N", r.err.strip().split("\n")[0][:80])), f"{what}: exit 1 with no `mlr:` diagnostic: {r.err[:200]!r}", dict(detail, stderr=r.err[:1000]))
         return False
@@ -568,6 +570,12 @@ def dsl_case(case):
         bump(res, "dsl_runs")
         detail = {"argv": argv, "stdin": stdin, "files": {"prog.mlr": prog if len(prog) < 6000 else prog[:6000] + "...(truncated; see name)"}, "ops": ops, "name": name,
                   "gen_seed": case["seed"]}
+        if name == "mutant" and (b"out of memory" in r.stderr or b"cannot allocate memory" in r.stderr):
+            # a mutated literal can turn a loop bound / pad length / array index into a huge number: the program then asks for
+            # the memory itself (cf. C18-F1/F2, which are reported from the un-mutated pathological list) - not judged, counted
+            bump(res, "dsl_mutant_runs_that_exhausted_memory_(own_demand?)")
+            res["inconc"] += 1
+            continue
         if name == "mutant" and r.verdict == "cpu" and b"out of memory" not in r.stderr:
             # a token mutant can be a program that loops by its own logic (a deleted `break`, a mutated loop condition):
             # indistinguishable from outside, so not judged - counted
@@ -694,6 +702,12 @@ def option_case(case):
     r = R.mlr(argv, files={"in.dat": databytes}, env=ENV, cpu_s=20, watchdog=60)
     bump(res, "option_runs")
     detail = {"argv": argv, "files": {"in.dat": databytes[:3000]}, "gen_seed": case["seed"]}
+    if r.verdict == "cpu" and "--no-hash-records" in argv and len(databytes) > 50000:
+        # a mutated document with a 100k-field line under --no-hash-records is quadratic by the user's own choice of flag:
+        # it terminates (checked by hand), only not inside the CPU budget on a loaded machine
+        bump(res, "option_runs_no_hash_quadratic_over_budget")
+        res["inconc"] += 1
+        return res
     ok = judge(res, r, {"where": "option", "flag": picked[0] if len(picked) == 1 else "+".join(sorted(set(picked)))[:80]}, f"main flags {extra} with reader {base}", detail)
     if ok:
         bump(res, "option_ok_exit0" if r.rc == 0 else "option_ok_mlr_error")
